@@ -147,7 +147,18 @@ fn fork_variant(scn: &Scenario, k: usize, root: &str) -> Option<VariantOut> {
     let out_path = format!("{root}/v{k}.json");
     let pid = unsafe { libc::fork() };
     if pid == 0 {
-        let r = std::panic::catch_unwind(std::panic::AssertUnwindSafe(|| run_variant(scn, k, root)));
+        // Run the variant on a fresh thread: std caches the per-thread hash-map keys the first time a
+        // RandomState is made, and the forking thread made one long ago; on a new thread the keys
+        // are drawn again, from this variant's entropy stream, so that hash seeds really differ
+        // between the `base` and `entropy` environments.
+        let scn2 = scn.clone();
+        let root2 = root.to_string();
+        let r = std::thread::Builder::new()
+            .stack_size(256 << 20)
+            .spawn(move || std::panic::catch_unwind(std::panic::AssertUnwindSafe(|| run_variant(&scn2, k, &root2))))
+            .ok()
+            .and_then(|h| h.join().ok())
+            .unwrap_or_else(|| Err(Box::new("variant thread failed") as Box<dyn std::any::Any + Send>));
         shim::stop();
         shim::env_stop();
         if let Ok(o) = r {
